@@ -2,7 +2,7 @@
 import z3
 
 from pyvc.verify import (Contract, Obj, Stream, Bytes, Int, Tup, Bool, OneOf,
-                         NoneT, Const, Custom)
+                         NoneT, Const, Custom, Box)
 from pyvc.values import (VSymSet, VStr, VInt, VNone, VExc, VRef, DictCell,
                          SeqCell, Val, L_len, L_at)
 from pyvc import models as M
@@ -140,6 +140,8 @@ def register(engine):
         },
         modifies=['self._fp.pos', 'self._linenum', 'self._file_newlines'],
         ensures=[
+            ('pos_range', 'pos0 <= stream_pos(self._fp) and '
+                          'stream_pos(self._fp) <= len(data)'),
             ('eof', 'implies(result is None, '
                     'stream_pos(self._fp) == len(data))'),
             ('valid_id', 'implies(result is not None, '
@@ -147,6 +149,9 @@ def register(engine):
             ('line', 'implies(result is not None, '
                      'result["line"] == old(self._linenum) and '
                      'self._linenum == old(self._linenum) + 1)'),
+            ('data_frame', 'stream_data(self._fp) == data'),
+        ],
+        internal_ensures=[
             # accepted  =>  the line has the grammar's shape, piece by piece
             # (props/C11 proves that this decomposition is exactly HDR)
             ('grammar_shape', 'implies(result is not None, header == b"#" + '
@@ -158,9 +163,11 @@ def register(engine):
                              'in_re(section_type, NAMES_RE))'),
             ('grammar_opts', 'implies(result is not None and options_str, '
                              'in_re(bytes_of(options_str), OPTS))'),
-            ('data_frame', 'stream_data(self._fp) == data'),
+            ('level_dots', 'implies(result is not None, result["level"] == '
+                           'len(m.group("level")))'),
         ],
         raises={DiffXParseError: 'exc_linenum == old(self._linenum)'},
+        exc_attrs={DiffXParseError: {'linenum': Int(), 'column': Box()}},
     )
     from pyvc.values import VConc, VFunc, VBox
 
